@@ -189,6 +189,11 @@ class Scenario:
                             rec["got"] = type(obj.send(0)).__name__
                             for _ in range(3):
                                 obj.send(0)
+                        elif name == "unget12":
+                            # a dozen bytes handed back to the Input (what a window read past a cursor report), one key taken:
+                            # the context is then left with the rest still buffered
+                            obj.unget_bytes(b"0123456789ab" if st.get("text", 1) else b"\x1b[1;10\x1b[1;10\xe1y")
+                            rec["got"] = type(obj.send(0)).__name__
                         elif name == "trigger":
                             cb = obj.threadsafe_event_trigger(Ev)
                             cb()
@@ -336,7 +341,7 @@ class C12(TraceCheck):
     rule = ("scenarios on real ptys: nestings of <=3 contexts among Input (sigint_event, disable_terminal_start_stop), "
             "FullscreenWindow (hide_cursor), CursorAwareWindow (hide_cursor, keep_last_line), Cbreak, Nonblocking, Termmode (asked to set what tcgetattr reports / ECHO+ICANON off / that with control characters written as ints); "
             "bodies of renders, requests, thread-safe/scheduled triggers; normal exit or an exception after every prefix; renders that raise part-way (a row that is no string; a foreign exception landing at the n-th line executed inside render_to_terminal), the exception then leaving the contexts; "
-            "two Inputs open with the outer one asked; a SIGINT handler of the application's own installed inside an Input; repeated enter/exit; a real SIGINT sent from another thread during a blocked request (KeyboardInterrupt with "
+            "an Input left with keypresses still buffered; two Inputs open with the outer one asked; a SIGINT handler of the application's own installed inside an Input; repeated enter/exit; a real SIGINT sent from another thread during a blocked request (KeyboardInterrupt with "
             "sigint_event off, SigIntEvent with it on); main and non-main thread; initial O_NONBLOCK off/on, O_ASYNC / O_NOATIME / O_APPEND preset, and two initial "
             "tty settings. After every step: termios attributes, O_NONBLOCK, SIGINT handler, signal wake-up fd, number of open "
             "fds and the terminal tokens. Sources: TLC behaviours from Ctx.tla (exhaustive to depth 4 + simulation) + "
@@ -426,6 +431,13 @@ class C12(TraceCheck):
                         yield [init, E("Termmode", tm=tm), E("Cbreak"), X, end]
                         yield [init, E("Cbreak"), E("Termmode", tm=tm), end, X]
                         yield [init, E("Termmode", tm=tm), E("Input", nostart=1), OP("request_key"), X, end]
+                # an Input left while keypresses are still buffered in it
+                for sig in (0, 1):
+                    for end in (X, R):
+                        yield [init, E("Input", sigint=sig), OP("unget12"), end]
+                        yield [init, E("Input", sigint=sig, nostart=1), OP("request_key"), OP("unget12", text=0), end]
+                    yield [init, E("Cbreak"), E("Input", sigint=sig), OP("unget12"), X, X]
+                    yield [init, E("Input", sigint=sig), OP("unget12"), X, E("Input", sigint=sig, reuse=1), OP("request"), OP("request"), X]
                 # two Inputs open at once and the OUTER one is asked; a SIGINT handler of the application's own installed
                 # inside an Input's context, then requests
                 for so in (0, 1):
